@@ -306,12 +306,78 @@ def check(run: Run) -> None:
                         out.append(x)
                         for a in x.args:
                             visit(a, d)
+                    elif isinstance(x.func, ast.Attribute) and x.func.attr == "subs" and x.args and not x.keywords:
+                        # base.subs(k, v) / base.subs({k: v, ...}): what the base certainly contains stays unless it is a key (then the value's content
+                        # takes its place) or an argument of a replaced application
+                        if isinstance(x.args[0], ast.Dict) and len(x.args) == 1 and all(k is not None for k in x.args[0].keys):
+                            pairs = list(zip(x.args[0].keys, x.args[0].values))
+                        elif len(x.args) == 2:
+                            pairs = [(x.args[0], x.args[1])]
+                        else:
+                            return
+                        base_items = expanded(x.func.value, d, seen)
+                        gone = set()
+                        for k, _ in pairs:
+                            if isinstance(k, ast.Call):
+                                gone |= {norm(a) for a in k.args}
+
+                        def same_thing(item, key) -> bool:
+                            if isinstance(item, ast.Call) or isinstance(key, ast.Call):
+                                return isinstance(item, ast.Call) and isinstance(key, ast.Call) and norm(item) == norm(key)
+                            a_, b_ = it.ev(item), it.ev(key)
+                            return bool(a_.ident) and a_.ident == b_.ident
+
+                        for item in base_items:
+                            hit = next((v for k, v in pairs if same_thing(item, k)), None)
+                            if hit is not None:
+                                visit(hit, d)
+                            elif norm(item) not in gone:
+                                out.append(item)
+                elif isinstance(x, ast.Subscript) and isinstance(x.slice, ast.Constant) and x.slice.value == 0 and isinstance(x.value, ast.Call) \
+                        and (dotted(x.value.func) or "").split(".")[-1] == "solve" and len(x.value.args) == 2 and not x.value.keywords:
+                    # solve(<law written with every symbol once>, s)[0]: the solution depends on every other symbol of the law (nothing can cancel)
+                    for node in _read_once_law_symbols(x.value.args[0], x.value.args[1]):
+                        out.append(node)
                 elif isinstance(x, (ast.Tuple, ast.List)):
                     for el in x.elts:
                         visit(el, d)
 
             visit(e, depth)
             return out
+
+        def _read_once_law_symbols(law_node: ast.AST, unknown: ast.AST) -> list:
+            """[nodes evaluating to the other symbols] of an equation `Eq(...)` bound to `<module alias>.<name>` in which every symbol is written exactly
+            once and no function application occurs; [] when the equation cannot be read that way"""
+            if not (isinstance(law_node, ast.Attribute) and isinstance(law_node.value, (ast.Name, ast.Attribute))):
+                return []
+            mv = it.ev(law_node.value)
+            if mv.kind != "module" or mv.extra not in src.mods:
+                return []
+            other = src.mods[mv.extra]
+            eqs = [st.value for st in other.tree.body if isinstance(st, ast.Assign) and len(st.targets) == 1 and isinstance(st.targets[0], ast.Name)
+                   and st.targets[0].id == law_node.attr]
+            if len(eqs) != 1 or not (isinstance(eqs[0], ast.Call) and dotted(eqs[0].func) == "Eq" and len(eqs[0].args) == 2):
+                return []
+            oit = Interp(w, w.env(mv.extra))
+            seen_ids: dict = {}
+            for side in eqs[0].args:
+                for y in ast.walk(side):
+                    if isinstance(y, ast.Call):
+                        return []
+                    if isinstance(y, ast.Name):
+                        v_ = oit.ev(y)
+                        if v_.ident and v_.kind in ("expr", "any"):
+                            seen_ids.setdefault(v_.ident, []).append(y.id)
+                        elif v_.kind not in ("num", "any", "expr"):
+                            return []
+                    elif isinstance(y, ast.Attribute):
+                        return []
+            if any(len(v_) != 1 for v_ in seen_ids.values()):
+                return []
+            uid = it.ev(unknown).ident
+            if not uid or uid not in seen_ids:
+                return []
+            return [ast.copy_location(ast.Attribute(value=law_node.value, attr=names[0], ctx=ast.Load()), law_node) for ident_, names in seen_ids.items() if ident_ != uid]
 
         def rank(k: ast.AST):
             """SymPy orders a dict of replacements by (count_ops, number of args, name); keys of equal rank are tie-broken by name"""
